@@ -77,6 +77,7 @@ func (bs *BlockingStrategy) ProcessData(data map[string]any) {
 		return
 	}
 
+	verifYieldPoint("block.send")
 	if bs.stream.blockingTimeout <= 0 {
 		select {
 		case dataChan <- data:
@@ -143,6 +144,7 @@ func (es *ExpansionStrategy) ProcessData(data map[string]any) {
 
 	// Still full: a few short retries give the consumer a chance to drain.
 	for i := 0; i < 3; i++ {
+		verifYieldPoint("expand.retry")
 		timer := time.NewTimer(100 * time.Microsecond)
 		select {
 		case <-timer.C:
@@ -199,6 +201,7 @@ func (ds *DropStrategy) ProcessData(data map[string]any) {
 
 	// Channel full: a few short retries give the consumer a chance to drain.
 	for i := 0; i < 3; i++ {
+		verifYieldPoint("drop.retry")
 		timer := time.NewTimer(100 * time.Microsecond)
 		select {
 		case dataChan <- data:
